@@ -2116,8 +2116,26 @@ def _optarg_fetch(body, du, place):
     return Q.value_source(body, du, {'cp': {'l': place['l']}})
 
 
-def _is_arg_fetch(body, t):
+def _always_true(F, body, du, o):
+    """The predicate operand is a closure / fn whose body is `true` whatever the argument (`next_if(|_| true)`, the spelling of
+    next() that does not poll an exhausted iterator again)."""
+    org = du.origin(o)
+    d = None
+    if org['k'] == 'agg' and org['rv'].get('ak') == 'closure':
+        d = org['rv'].get('def')
+    elif org['k'] == 'const' and org['o'].get('fn'):
+        d = org['o']['fn']
+    cb = F.bodies.get(d) if d else None
+    if cb is None or any(True for _ in cb.calls()):
+        return False
+    rets = [st for _, _, st in cb.stmts() if st['k'] == 'assign' and st['lhs']['l'] == 0 and not st['lhs'].get('p')]
+    return bool(rets) and all(st['rv']['k'] == 'use' and str(st['rv']['o'].get('c')) == 'true' for st in rets)
+
+
+def _is_arg_fetch(F, body, du, t):
     """An unconditional fetch of the next argument (not of the next character of a text)."""
+    if Q.callee_is(t, [re.compile(r'Peekable::<.*>::next_if$')]) and len(t['a']) == 2 and _always_true(F, body, du, t['a'][1]):
+        return True
     if not Q.callee_is(t, PLAIN_FETCH):
         return False
     ty = body.locals[t['dest']['l']]['ty'] if not t['dest'].get('p') else ''
@@ -2135,7 +2153,7 @@ def _missing_decided_by(F, body, blk, st):
     def note(t):
         if t is None:
             return
-        found.append(('exhausted' if _is_arg_fetch(body, t) else 'predicate', pp.callee(t).split(' [')[0], t))
+        found.append(('exhausted' if _is_arg_fetch(F, body, du, t) else 'predicate', pp.callee(t).split(' [')[0], t))
 
     # `fetch.ok_or(Missing)` / `.ok_or_else(|| Missing)`: the error value is built before the test
     for b_, t in body.calls():
@@ -2153,7 +2171,7 @@ def _missing_decided_by(F, body, blk, st):
                     if org['k'] == 'agg' and org['rv'].get('ak') == 'closure' and org['rv'].get('def') == body.fn:
                         src = Q.value_source(parent, pdu, t['a'][0])
                         if src is not None:
-                            found.append(('exhausted' if _is_arg_fetch(parent, src) else 'predicate', pp.callee(src).split(' [')[0], src))
+                            found.append(('exhausted' if _is_arg_fetch(F, parent, pdu, src) else 'predicate', pp.callee(src).split(' [')[0], src))
     # tests that dominate the construction
     for org, lab, e in Q.implied_conditions(F, body, du, blk):
         org, lab = Q.peel_not(du, org, lab)
@@ -2217,7 +2235,7 @@ def r14(cx):
             how = ('the next argument is fetched with %s, which looks at its text and answers None for an argument that is there'
                    % nm.split('::')[-1].split('<')[0]) if verdict == 'predicate' else \
                   'it is not reached behind `None` of an unconditional next()/peek() on the argument list'
-            cx.violation(fn, 'missing-argument-not-by-exhaustion:%s' % key[1], '%s: the error %s is reported although the argument list '
+            cx.violation(body0.root, 'missing-argument-not-by-exhaustion:%s' % key[1], '%s: the error %s is reported although the argument list '
                          'may not be exhausted - %s. An option-argument given as the next argument must be taken whatever it looks like '
                          '(`--rcfile -rc` = `--rcfile=-rc`, `-o -x`, `-s -9`): with a predicate the separate spelling is rejected as '
                          '"missing argument" (or the argument is left to be parsed as an option) while the attached spelling is accepted'
